@@ -233,3 +233,8 @@ func init() {
 	prop("C11", "C06-R4")
 	prop("C04", "C06-R4")
 }
+
+func init() {
+	prop("C02", "C02-R5")
+	prop("C20", "C02-R5")
+}
